@@ -1,6 +1,7 @@
 package core
 
 import (
+	"os"
 	"fmt"
 	"sort"
 	"strings"
@@ -53,6 +54,14 @@ func (p *preKeeper) PostAccept(s erpc.PreSession) *erpc.Status {
 	p.last = s
 	p.mu.Unlock()
 	return nil
+}
+
+// refusingDialHook refuses every connection its peer dials, with a timeout-flavoured status.
+type refusingDialHook struct{}
+
+func (*refusingDialHook) Name() string { return "c15refuse" }
+func (*refusingDialHook) PostDial(erpc.PreSession, bool) *erpc.Status {
+	return erpc.NewStatus(6100, "refused by the dial hook", os.ErrDeadlineExceeded)
 }
 
 // ageSetter gives accepted sessions a context age so short that replies cannot be written.
@@ -131,7 +140,7 @@ func (x *c15World) battery() map[string]vt.StatusTriple {
 }
 
 var c15Steps = []string{
-	"ok-call", "closed-call", "closed-push", "unknown-route", "bad-body", "panic", "badtype", "presend-outside", "dial-fail", "cut-mid-call",
+	"ok-call", "closed-call", "closed-push", "unknown-route", "bad-body", "panic", "badtype", "presend-outside", "dial-fail", "dial-timeout", "dial-hook-refuses", "cut-mid-call",
 	"truncated-reply-mid-call", "garbage-reply-mid-call", "session-age-expires-mid-call",
 	"reply-404-write-times-out", "reply-400-write-times-out", "reply-500-write-times-out",
 	"redial-fails-then-traffic", "redial-fails-then-traffic",
@@ -178,6 +187,19 @@ func (x *c15World) step(name string) {
 		}
 	case "dial-fail":
 		x.cli.Dial("127.0.0.1:1")
+	case "dial-timeout":
+		// a dial that runs into PeerConfig.DialTimeout (the error is a timeout net.Error)
+		p := x.w.Peer(erpc.PeerConfig{DialTimeout: time.Nanosecond})
+		vt.Returns(func() { p.Dial("127.0.0.1:1") })
+	case "dial-hook-refuses":
+		// a connection that is established and then refused by a PostDial hook
+		ts := &tcpServer{peer: x.srv}
+		if err := ts.listen(); err != nil {
+			return
+		}
+		p := x.w.Peer(erpc.PeerConfig{DialTimeout: time.Second}, &refusingDialHook{})
+		vt.Returns(func() { p.Dial(ts.addr) })
+		ts.down()
 	case "redial-fails-then-traffic":
 		// a redial-enabled client whose server goes away for good: calls and pushes issued
 		// while it redials and after it gave up
@@ -333,7 +355,7 @@ func (x *c15World) step(name string) {
 	}
 }
 
-const ruleC15 = "history = 1-12 steps drawn from {successful call, call/push on a closed session, unknown route, undecodable body, handler panic, frame of unsupported type, PreSend/PreCall outside the accept phase, refused dial, connection cut while a call waits, connection ending with a non-EOF read error while a call waits (truncated reply, over-limit garbage, session-age read deadline), error replies (404 / 400 / 500) that cannot be written because the reply context expired, calls and pushes on a redial-enabled session whose server is gone for good (during the redial and after it gave up), proxied call and proxied push with the backend session closed, proxied call whose backend connection is cut mid-call, proxied call that succeeds, auth rejection, secure plugin with a wrong key, overloader rejection}; oracle (a): code/msg/cause of every predefined status (verif accessor) is identical before the history and after every step; oracle (b): a fixed battery of failing operations on fresh sessions yields identical triples before and after the history; non-trivial = the history contains a step that hands a predefined status by pointer to plugin or user code (proxy with backend down, closed-session call/push); distinct by history"
+const ruleC15 = "history = 1-12 steps drawn from {successful call, call/push on a closed session, unknown route, undecodable body, handler panic, frame of unsupported type, PreSend/PreCall outside the accept phase, refused dial, dial that runs into a 1 ns DialTimeout, established connection refused by a PostDial hook with a timeout-flavoured cause, connection cut while a call waits, connection ending with a non-EOF read error while a call waits (truncated reply, over-limit garbage, session-age read deadline), error replies (404 / 400 / 500) that cannot be written because the reply context expired, calls and pushes on a redial-enabled session whose server is gone for good (during the redial and after it gave up), proxied call and proxied push with the backend session closed, proxied call whose backend connection is cut mid-call, proxied call that succeeds, auth rejection, secure plugin with a wrong key, overloader rejection}; oracle (a): code/msg/cause of every predefined status (verif accessor) is identical before the history and after every step; oracle (b): a fixed battery of failing operations on fresh sessions yields identical triples before and after the history; non-trivial = the history contains a step that hands a predefined status by pointer to plugin or user code (proxy with backend down, closed-session call/push); distinct by history"
 
 func TestC15StatusImmutable(t *testing.T) {
 	rec := vt.NewRec(t, "C15", "immutable", ruleC15)
